@@ -244,3 +244,163 @@ func (tdBindStream) Class(c Case, impl string) (string, bool) {
 	}
 	return impl + "/dn-absent", false
 }
+
+// ---- stream "tdbindwire": the directory's answer to a stream of binds, byte for byte ---------------------------
+
+type tdBindWireStream struct{}
+
+func (tdBindWireStream) Name() string { return "tdbindwire" }
+func (tdBindWireStream) Rule() string {
+	return "user sets as in tdbind; 1..3 simple binds (random message ids, DNs and passwords from the users' values and near misses, request controls on some) sent as one stream to the directory's own mux, with and without response controls configured through SetControls; the bytes written are compared with the Lean session model instantiated with the directory's bind script; oracle: each frame is a BindResponse with its request's id, success iff the credentials are right, carrying the directory's controls exactly after a password match; non-trivial = at least one user with a bind DN, distinct by case"
+}
+
+func (tdBindWireStream) Generate(rng *rand.Rand, n int, thorough bool) []Case {
+	var cs []Case
+	for len(cs) < n {
+		us := genTdUsers(rng)
+		nb := 1 + rng.Intn(3)
+		var in []byte
+		var exp []string
+		anon, ctl := rng.Intn(2), rng.Intn(2)
+		nontrivial := false
+		for i := 0; i < nb; i++ {
+			dn := tdDNs[rng.Intn(len(tdDNs))]
+			pw := tdPws[rng.Intn(len(tdPws))]
+			if len(us) > 0 && rng.Intn(10) < 7 {
+				u := us[rng.Intn(len(us))]
+				dn = u.DN
+				if rng.Intn(2) == 0 {
+					for _, a := range u.Attrs {
+						if a.Type == "password" && len(a.Vals) > 0 {
+							pw = a.Vals[rng.Intn(len(a.Vals))]
+							break
+						}
+					}
+				}
+			}
+			r := Req{Kind: "bind", ID: genID(rng), DN: dn, Pass: pw}
+			if rng.Intn(4) == 0 {
+				r.Ctls = genCtls(rng)
+			}
+			nd, err := r.Node()
+			if err != nil {
+				continue
+			}
+			in = append(in, nd.Ser()...)
+			ok, byPw := pw == "" && anon == 1, false
+			if !ok {
+				for _, u := range us {
+					if u.DN != dn {
+						continue
+					}
+					nontrivial = true
+					for _, a := range u.Attrs {
+						if a.Type == "password" {
+							if len(a.Vals) > 0 && a.Vals[0] == pw {
+								ok, byPw = true, true
+							}
+							break
+						}
+					}
+				}
+			}
+			code, ctrls := 49, "[]"
+			if ok {
+				code = 0
+				if byPw && ctl == 1 {
+					ctrls = "[" + Ctl{Kind: "str", OID: "1.2.3.4", Value: "v"}.Render() + "]"
+				}
+			}
+			exp = append(exp, fmt.Sprintf("result id=%d tag=1 code=%d matched=- diag=- ctrls=%s", r.ID, code, ctrls))
+		}
+		if len(in) == 0 {
+			continue
+		}
+		kind := "dn-absent"
+		if nontrivial {
+			kind = "dn-present"
+		}
+		cs = append(cs, Case{Line: fmt.Sprintf("tdbindwire anon=%d ctl=%d users=%s in=%s", anon, ctl, entriesDesc(us), hx(in)), Expect: strings.Join(exp, "|"), Kind: kind})
+	}
+	return cs
+}
+
+func (tdBindWireStream) Impl(c Case) string {
+	f := strings.Fields(c.Line)
+	us := parseTdEntries(strings.TrimPrefix(f[3], "users="))
+	var users []*gldap.Entry
+	for _, u := range us {
+		users = append(users, realEntry(u))
+	}
+	d := testdirectory.VerifNewDirectory(&harnessT{}, &testdirectory.Defaults{Users: users, AllowAnonymousBind: f[1] == "anon=1",
+		UserDN: testdirectory.DefaultUserDN, GroupDN: testdirectory.DefaultGroupDN})
+	if f[2] == "ctl=1" {
+		ctl, err := gldap.NewControlString("1.2.3.4", gldap.WithControlValue("v"))
+		if err != nil {
+			return "err control"
+		}
+		d.SetControls(ctl)
+	}
+	mux, err := d.VerifMux()
+	if err != nil {
+		return "err mux"
+	}
+	in := unhx(strings.TrimPrefix(f[4], "in="))
+	var frames []string
+	for len(in) > 0 {
+		n, ok := frameLen(in)
+		if !ok || n > len(in) {
+			return "err input"
+		}
+		vc := gldap.NewVerifConn(1, in[:n], mux)
+		req, err := vc.ReadRequest(1)
+		if err != nil {
+			return "err decode"
+		}
+		w, err := vc.Writer(1)
+		if err != nil {
+			return "err writer"
+		}
+		vc.Serve(w, req)
+		out := vc.Out.Bytes()
+		for len(out) > 0 {
+			k, ok := frameLen(out)
+			if !ok || k > len(out) {
+				frames = append(frames, "torn:"+hx(out))
+				break
+			}
+			frames = append(frames, hx(out[:k]))
+			out = out[k:]
+		}
+		in = in[n:]
+	}
+	return "frames=" + strings.Join(frames, ",")
+}
+
+func (tdBindWireStream) Oracle(c Case, impl string) (bool, string, string) {
+	if impl == "panic" {
+		return false, "bind handler panicked", "panic"
+	}
+	if !strings.HasPrefix(impl, "frames=") {
+		return false, impl, "tdbindwire/" + strings.Join(strings.Fields(impl), "-")
+	}
+	var views []string
+	if fs := strings.TrimPrefix(impl, "frames="); fs != "" {
+		for _, h := range strings.Split(fs, ",") {
+			if strings.HasPrefix(h, "torn:") {
+				views = append(views, h)
+			} else {
+				views = append(views, strictView(unhx(h)))
+			}
+		}
+	}
+	got := strings.Join(views, "|")
+	if got != c.Expect {
+		return false, "the client reads " + clip(got) + " want " + clip(c.Expect), "tdbindwire/" + strings.SplitN(firstDiff(c.Expect, got), "=", 2)[0]
+	}
+	return true, "", ""
+}
+
+func (tdBindWireStream) Class(c Case, impl string) (string, bool) {
+	return c.Kind, c.Kind == "dn-present"
+}
